@@ -208,10 +208,10 @@ def after_merge(s, i):
 
 def run(s):
     q = s.tier == 'quick'
-    for i in range(240 if q else 8000):
+    for i in range(360 if q else 30000):
         if s.mine(i):
             after_merge(s, i)
-    for i in range(24 if q else 900):
+    for i in range(24 if q else 2500):
         if not s.mine(i):
             continue
         rng = s.rng('state', i)
